@@ -71,7 +71,7 @@ def applicable_nodes(rule, root):
 
 
 class Applied:
-    __slots__ = ("source_root", "source_node", "target", "target_root", "result", "result_root", "arrangement", "fresh_consts", "error")
+    __slots__ = ("source_root", "source_node", "target", "target_root", "result", "result_root", "arrangement", "fresh_consts", "error", "target_sig_before", "target_ids")
 
 
 def apply(rule, node):
@@ -83,6 +83,8 @@ def apply(rule, node):
     ap.error = None
     ap.result = ap.result_root = None
     ap.fresh_consts = []
+    ap.target_sig_before = None
+    ap.target_ids = set()
     try:
         ap.target = node.clone_from_root()
     except Exception as e:  # clone_from_root failing is C13's business; report as error here
@@ -93,6 +95,8 @@ def apply(rule, node):
     ap.target_root = _root(ap.target)
     ap.arrangement = arrangement(rule, ap.target)
     before_ids = {id(n) for n in A.preorder(ap.target_root)}
+    ap.target_ids = before_ids
+    ap.target_sig_before = A.idsig(ap.target_root)
     try:
         change = rule.apply_to(ap.target)
         ap.result = change.result
@@ -187,6 +191,40 @@ def build_tree(ctx, case):
         root = ap.result_root
         ctx.count("pre:applied")
     return root
+
+
+def evaluate_disagrees(root, exact_eval=None):
+    """Cross-check of the public evaluate() against the link structure after a rewrite: returns a witness
+    dict when evaluate() returns a finite number that differs from the exact value of the tree (walked over
+    left/right links) at a small integer assignment; None otherwise (also when either side is undefined)."""
+    from fractions import Fraction
+
+    vs = sorted(A.variables(root))
+    for base in (2, 3):
+        env = {v: base + i for i, v in enumerate(vs)}
+        try:
+            r = X.try_eval(root, {k: Fraction(v) for k, v in env.items()})
+        except (X.NonFinite, X.Malformed):
+            return None
+        if r is None or r.is_eq or r.inexact:
+            continue
+        want = r.value
+        if abs(want) > 10**12:
+            continue
+        try:
+            got = root.evaluate(env)
+        except Exception:
+            continue
+        try:
+            g = float(got)
+        except (TypeError, ValueError, OverflowError):
+            continue
+        if g != g or g in (float("inf"), float("-inf")):
+            continue
+        w = float(want)
+        if abs(g - w) > 1e-6 * max(1.0, abs(w)):
+            return {"assignment": env, "evaluate_returned": repr(got), "value_of_the_tree": str(want)}
+    return None
 
 
 def text_of(root):
